@@ -756,6 +756,25 @@ func ParseSpecFile(path string, pkg string, requirePrefix bool) (*SpecFile, erro
 				}
 				cl.Expr = e
 				cl.Text = body
+			case "borrowed":
+				// borrowed[tags] <param> [until <expr>]
+				f := strings.Fields(rest)
+				if len(f) == 0 {
+					return nil, fail(l.no, "borrowed needs a parameter name")
+				}
+				cl.Desig = f[0]
+				cl.Name = "borrowed_" + f[0]
+				after := strings.TrimSpace(rest[len(f[0]):])
+				if after != "" {
+					if !strings.HasPrefix(after, "until ") {
+						return nil, fail(l.no, "expected 'borrowed <param> until <expr>'")
+					}
+					e, err := ParseExpr(strings.TrimSpace(after[6:]))
+					if err != nil {
+						return nil, fail(l.no, "%v", err)
+					}
+					cl.Expr = e
+				}
 			case "modifies", "locks_only":
 				if rest != "nothing" {
 					for _, part := range splitTopLevel(rest, ',') {
